@@ -208,6 +208,8 @@ func checkC07() int {
 // tcTotality inspects one typecheck outcome for C09's refutations; returns a signature or "".
 func tcTotality(o *sup.Outcome) string {
 	switch {
+	case o.Died() && strings.Contains(o.Deaths[0], "verif: scanner step budget"):
+		return "" // the parser's business (C11)
 	case o.Died():
 		return "typechecker killed the host: " + normDeath(o.Deaths[0])
 	case o.PostDeath != "":
